@@ -682,6 +682,35 @@ theorem C16_name_prod_side (R : Render α) (ids : Nat → Ident) (k : Kind) (c :
 
 end names
 
+/-- the names of a list of built observables are the texts of their expressions -/
+theorem C16_names_of_built {α : Type} [Add α] [Mul α] [Neg α] [Sub α] [Zero α] [One α]
+    (R : Render α) (ids : Nat → Ident) :
+    ∀ (es : List (Expr α)) (ns : List (NObs α)),
+      List.Forall₂ (fun e n => buildN R ids e = .ok (.obs n)) es ns → ns.map (·.name) = es.map (exprText R ids true)
+  | _, _, .nil => rfl
+  | _, _, .cons h1 h2 => by
+    simp only [List.map_cons]
+    rw [(C16_name_of_build R ids _ _ h1).1, C16_names_of_built R ids _ _ h2]
+
+/-- **names as dictionary keys (C13)** — observables built from the expressions `es` and handed to `System`: the keys
+of the dictionary `System.statistics` returns are the texts `exprText … e` of the expressions, each once, in order of
+first occurrence. Two built observables are therefore reported separately iff their expressions READ differently
+(`2 * X` and `X * 2` read the same and are the same observable; two leaves of one class with different options read the
+same and are NOT the same observable — known finding F19). -/
+theorem C16_system_keys_of_built {σ : Type} (env : Stats.Env σ) (R : Render ℝ) (ids : Nat → Ident)
+    (es : List (Expr ℝ)) (ns : List (NObs ℝ)) (hb : List.Forall₂ (fun e n => buildN R ids e = .ok (.obs n)) es ns)
+    (vals : NObs ℝ → σ → List ℝ) (a : Stats.Args σ) (hne : ∀ n ∈ ns, ∀ st, vals n st ≠ [])
+    (r : List (String × Stats.Stat ℝ) × List (Stats.SampleCall σ))
+    (h : Stats.systemStatistics env (ns.map (fun n => (n.name, vals n))) a = .ok r) :
+    r.1.map (·.1) = Stats.firstOcc (es.map (exprText R ids true)) := by
+  have key := C13_system_keys_of_names env (ns.map (fun n => (n.name, vals n))) a
+    (by
+      intro o ho st
+      obtain ⟨n, hn, rfl⟩ := List.mem_map.mp ho
+      exact hne n hn st) r h
+  rw [key, List.map_map, ← C16_names_of_built R ids es ns hb]
+  rfl
+
 /-! ### Non-vacuity -/
 
 /-- `-O₀ - 3*O₁ + 1` (the expression of the repository's smoke test) builds, to the nested
